@@ -5,6 +5,7 @@ import (
 	"encoding/binary"
 	"fmt"
 	"sort"
+	"strings"
 	"unsafe"
 
 	g "github.com/cbehopkins/gkvlite"
@@ -200,16 +201,24 @@ func (w *World) treeCheck(h *Handle, name string, c *g.Collection, mc *MColl, no
 	if len(full) != len(mc.Items) {
 		return // contents oracle reports
 	}
+	w.shapeCheck(name, mc, full, "")
+}
+
+// shapeCheck asserts search order, binary-tree shape, heap order and the
+// canonical treap shape on an in-order (key, priority, depth) sequence; where
+// says which representation the sequence came from ("" = the live tree through
+// the public API, otherwise the persisted tree read by the independent decoder).
+func (w *World) shapeCheck(name string, mc *MColl, full []kvp, where string) {
 	f := CmpFunc(mc.Cmp)
 	ds := make([]uint64, len(full))
 	for i, e := range full {
 		ds[i] = e.d
 		if i > 0 && f(full[i-1].k, e.k) >= 0 {
-			w.failf("order", "collection %q: keys %s, %s are not strictly ascending under the comparator", name, qb(full[i-1].k), qb(e.k))
+			w.failf("order", "collection %q%s: keys %s, %s are not strictly ascending under the comparator", name, where, qb(full[i-1].k), qb(e.k))
 		}
 	}
 	if msg := validInorderDepths(ds); msg != "" {
-		w.failf("depth-shape", "collection %q: reported depths are not those of a binary tree: %s (depths %v)", name, msg, ds)
+		w.failf("depth-shape", "collection %q%s: reported depths are not those of a binary tree: %s (depths %v)", name, where, msg, ds)
 	}
 	// (d) heap order and canonical shape while no lowering overwrite happened
 	if w.lowered[name] {
@@ -230,8 +239,8 @@ func (w *World) treeCheck(h *Handle, name string, c *g.Collection, mc *MColl, no
 			}
 		}
 		if parent >= 0 && full[parent].p < full[root].p {
-			w.failf("heap-order", "collection %q: %s (priority %d) is the parent of %s (priority %d) although no key was ever overwritten with a lower priority",
-				name, qb(full[parent].k), full[parent].p, qb(full[root].k), full[root].p)
+			w.failf("heap-order", "collection %q%s: %s (priority %d) is the parent of %s (priority %d) although no key was ever overwritten with a lower priority",
+				name, where, qb(full[parent].k), full[parent].p, qb(full[root].k), full[root].p)
 		}
 		rec(lo, root, d+1, root)
 		rec(root+1, hi, d+1, root)
@@ -241,13 +250,46 @@ func (w *World) treeCheck(h *Handle, name string, c *g.Collection, mc *MColl, no
 	if canon, ok := mc.CanonDepths(); ok {
 		for _, e := range full {
 			if canon[string(e.k)] != e.d {
-				w.failf("canonical-shape", "collection %q: key %s reported at depth %d, the unique treap over the current keys and priorities puts it at depth %d", name, qb(e.k), e.d, canon[string(e.k)])
+				w.failf("canonical-shape", "collection %q%s: key %s reported at depth %d, the unique treap over the current keys and priorities puts it at depth %d", name, where, qb(e.k), e.d, canon[string(e.k)])
 			}
 		}
 		if len(full) >= 4 {
 			w.ev["canonical_checked_4plus"]++
 		}
 		w.ev["canonical_checked"]++
+	}
+}
+
+// persistedTreeCheck (C13, after every successful Flush): the tree as persisted
+// on file, read by the independent decoder from the new root record, is a search
+// tree whose every node records its exact aggregates, with heap order and the
+// canonical shape under the same conditions as in memory.  Layout problems are
+// C14's business and are not reported here.
+func (w *World) persistedTreeCheck() {
+	top := w.durable[len(w.durable)-1]
+	d, err := DecodeAt(w.file.B, top.fileLen, func(name string) int {
+		if mc := top.ms.Colls[name]; mc != nil {
+			return mc.Cmp
+		}
+		return 0
+	})
+	if err != nil {
+		if strings.HasPrefix(err.Error(), "persisted node at") {
+			w.failf("persisted-agg", "after Flush: %v", err)
+		}
+		return
+	}
+	for _, name := range top.ms.Names() {
+		mc, dc := top.ms.Colls[name], d.Colls[name]
+		if mc == nil || dc == nil || len(dc.Items) != len(mc.Items) {
+			continue // contents oracles report this
+		}
+		full := make([]kvp, len(dc.Items))
+		for i, it := range dc.Items {
+			full[i] = kvp{k: it.Key, p: it.Prio, d: uint64(it.Depth)}
+		}
+		w.shapeCheck(name, mc, full, " (as persisted on file)")
+		w.ev["persisted_tree_checked"]++
 	}
 }
 
